@@ -264,3 +264,40 @@ def patch_gnpy():
         elements.db2lin = db2lin_obj
         SHIMMED.add('gnpy.core.elements.db2lin')
     return sorted(SHIMMED)
+
+
+class SymInterp1d:
+    """scipy.interpolate.interp1d (kind linear, 1-D) whose ordinates may be symbolic: abscissae and query points are concrete,
+    so each value is a fixed affine combination of two ordinates (no forking); fill_value='extrapolate' continues the first /
+    last segment, otherwise points outside the range raise like scipy does (bounds_error default)"""
+    def __init__(self, x, y, kind='linear', axis=-1, copy=True, bounds_error=None, fill_value=np.nan, assume_sorted=False):
+        from scipy.interpolate import interp1d as _real
+        self._args = (kind, axis, copy, bounds_error, fill_value, assume_sorted)
+        if not _has_sym(y):
+            self._real = _real(np.asarray(x, dtype=float), np.asarray(y, dtype=float), kind=kind, axis=axis, copy=copy,
+                               bounds_error=bounds_error, fill_value=fill_value, assume_sorted=assume_sorted)
+            return
+        self._real = None
+        if kind != 'linear' or np.ndim(y) != 1:
+            raise NotImplementedError('SymInterp1d: only 1-D linear interpolation of symbolic ordinates')
+        order = np.argsort(np.asarray(x, dtype=float))
+        self.x = [float(np.asarray(x, dtype=float)[i]) for i in order]
+        self.y = [list(y)[i] for i in order]
+        self.extrapolate = isinstance(fill_value, str) and fill_value == 'extrapolate'
+
+    def __call__(self, xn):
+        if self._real is not None:
+            return self._real(xn)
+        out = []
+        for v in np.atleast_1d(np.asarray(xn, dtype=float)):
+            if (v < self.x[0] or v > self.x[-1]) and not self.extrapolate:
+                raise ValueError('A value in x_new is outside the interpolation range.')
+            j = 0
+            while j < len(self.x) - 2 and v > self.x[j + 1]:
+                j += 1
+            w = (v - self.x[j]) / (self.x[j + 1] - self.x[j])
+            out.append(self.y[j] * (1 - w) + self.y[j + 1] * w if w not in (0.0, 1.0) else (self.y[j] if w == 0.0 else self.y[j + 1]))
+        res = np.empty(len(out), dtype=object)
+        for i, e in enumerate(out):
+            res[i] = e
+        return res if np.ndim(xn) else res[0]
